@@ -59,6 +59,16 @@ static uint64_t w1_thread_work(uint64_t seed, unsigned tid, bool tickets) {
     jm::RenderOpts ro;
     std::string text = jm::render(v, r, ro);
     if (tickets) ticket(tid);
+    // every fourth document of a thread lives on a private pool with the adaptive chunk policy started small, so
+    // that the policy's growth logic runs in several threads at once
+    if ((it & 3) == 3) {
+      su::AdaptivePool apool((size_t)512 << (tid & 3));
+      su::AdaptiveDoc ad(&apool);
+      std::string big = "[\"" + std::string(3000 + 500 * (it & 7), 'a' + (char)(tid % 26)) + "\"," + text + "]";
+      ad.Parse(big.data(), big.size());
+      digest = vf::hash_combine(digest, ad.HasParseError());
+      if (!ad.HasParseError()) digest = vf::hash_str(ad.Dump(), digest);
+    }
     su::PoolDoc d;
     d.Parse(text.data(), text.size());
     digest = vf::hash_combine(digest, d.HasParseError());
